@@ -125,7 +125,8 @@ Definition oks_matrix (n_ed n_nodes : nat) (gts prs : list pose) (sc : scspec) (
   map (fun gs => map (fun p => oks_pair coco (snd gs) (sd_list sd n_nodes) (fst gs) p) prs)
       (zip gts (scale_list n_ed sc gts)).
 
-(* compute_oks as coded.  fixed_F22 = false: the statement
+(* compute_oks.  fixed_F22 = true: the current tree (repaired by bc2102a, np.broadcast_to).
+   fixed_F22 = false: the PINNED tree before that fix, where the statement
      ks[np.expand_dims(missing_gt, axis=1)] = 0
    indexes an (n_gt, n_pr, n_nodes) array with an (n_gt, 1, n_nodes) boolean
    mask, which numpy rejects (IndexError) unless n_pr = 1.  None = IndexError. *)
@@ -195,12 +196,48 @@ Fixpoint match_loop (M : smatrix) (thr : Q) (order avail : list nat) : list mpai
   end.
 
 (* None = the ValueError of np.stack([]) : no gt instance but at least one
-   prediction (fixed_F51 = false, the code as it is) *)
+   prediction (fixed_F51 = false: the pinned tree before fix 8044028; true: the current tree, which
+   leaves the loop at once) *)
 Definition match_instances (fixed_F51 : bool) (n_gt : nat) (scores : list Q) (M : smatrix) (thr : Q)
   : option (list mpair * list nat) :=
   match n_gt, scores with
   | O, _ :: _ => if fixed_F51 then Some ([], []) else None
   | _, _ => Some (match_loop M thr (argsort_desc scores) (seq 0 n_gt))
+  end.
+
+(* ---- match_instances on an arbitrary predicted frame (review round 4) ----
+   The code builds `scores_pr` from the instances that HAVE a `score` attribute
+   (`if hasattr(m.instance, "score")`) and then uses the argsort positions of that FILTERED array as
+   indices into the UNFILTERED instance list: with k scored instances among n, the first k instances of
+   the frame are visited (in the order given by the scores of the scored ones) and the last n - k never.
+   A NaN score sorts last (np.argsort(-scores): NaN at the end, stable).
+   `pscore` = what the code sees of one predicted instance's score. *)
+Inductive pscore := NoScore | NanScore | Score (q : Q).
+Definition scored (prs : list pscore) : list (option Q) :=
+  flat_map (fun s => match s with NoScore => [] | NanScore => [None] | Score q => [Some q] end) prs.
+
+(* y strictly before x in descending order with NaN (None) last *)
+Definition ogt (y x : option Q) : bool :=
+  match x, y with
+  | Some a, Some b => Qltb a b
+  | None, Some _ => true
+  | _, None => false
+  end.
+Fixpoint insert_desc_o (x : option Q * nat) (l : list (option Q * nat)) : list (option Q * nat) :=
+  match l with
+  | [] => [x]
+  | y :: t => if ogt (fst y) (fst x) then y :: insert_desc_o x t else x :: l
+  end.
+Definition sort_desc_o (l : list (option Q * nat)) : list (option Q * nat) := fold_right insert_desc_o [] l.
+Definition argsort_desc_o (scores : list (option Q)) : list nat :=
+  map snd (sort_desc_o (zip scores (seq 0 (length scores)))).
+
+(* M has one column per instance of the predicted frame (scored or not) *)
+Definition match_instances_gen (fixed_F51 : bool) (n_gt : nat) (prs : list pscore) (M : smatrix) (thr : Q)
+  : option (list mpair * list nat) :=
+  match n_gt, scored prs with
+  | O, _ :: _ => if fixed_F51 then Some ([], []) else None
+  | _, sc => Some (match_loop M thr (argsort_desc_o sc) (seq 0 n_gt))
   end.
 
 (* ---- tracking/utils.py helpers ---- *)
@@ -329,6 +366,7 @@ Inductive case :=
 | COks (fixed_F22 : bool) (n_ed n_nodes : nat) (gts prs : list pose) (sc : scspec) (sd : sdspec) (coco : bool)
 | CArea (n_ed : nat) (ps : list pose)
 | CMatch (fixed_F51 : bool) (n_gt : nat) (scores : list Q) (M : smatrix) (thr : Q)
+| CMatchG (fixed_F51 : bool) (n_gt : nat) (prs : list pscore) (M : smatrix) (thr : Q)
 | CGreedy (C : smatrix)
 | CHung (C : list (list Q))
 | CHungInf (C : smatrix)
@@ -352,6 +390,7 @@ Definition run (c : case) : result :=
   | COks f e n g p sc sd coco => ROks (compute_oks f e n g p sc sd coco)
   | CArea e ps => RArea (map (area e) ps)
   | CMatch f n s M t => RMatch (match_instances f n s M t)
+  | CMatchG f n s M t => RMatch (match_instances_gen f n s M t)
   | CGreedy C => RGreedy (greedy_matching C)
   | CHung C => RHung (hungarian_opt C)
   | CHungInf C => RHungInf (hungarian_opt_inf C)
